@@ -122,7 +122,12 @@ impl SlowlogRecord {
 
         let limit_len = |mut s: String| {
             let real_len = s.len();
-            s.truncate(MAX_ELEMENT_LENGTH);
+            // String::truncate panics if the new length is inside a multi-byte character.
+            let mut end = std::cmp::min(MAX_ELEMENT_LENGTH, real_len);
+            while !s.is_char_boundary(end) {
+                end -= 1;
+            }
+            s.truncate(end);
             if real_len > MAX_ELEMENT_LENGTH {
                 let postfix = format!("({}bytes)", real_len);
                 s.push_str(&postfix)
